@@ -54,6 +54,9 @@ func c02Jobs(tier string) []string {
 	// window scaling: the window field reads 0 while one byte of window is left; the reader then
 	// drains and the window must be announced again (no frame is lost in this history)
 	add("or=c,devs=,mtu=1500,close=none,read=stall,aw=75000,rcvbuf=70001,b=0", 1)
+	// the side that half-closed first reads late: the other side, already at end-of-stream for
+	// reading, writes more than the window admits and shuts down with data still queued
+	add(base+",close=half,read=stall-a,aw=,bw=600,rcvbuf=200,b=1", 4)
 	// shutdown while the peer's window is closed: the write fills the window exactly, is
 	// acknowledged with window 0, and the FIN must still leave (a FIN needs no window)
 	add(base+",close=a-shut,read=stall,aw=200,rcvbuf=200,b=1", 2)
